@@ -33,10 +33,13 @@
       handle_cache: if-modified-since (time crate's parser, creation - 1 s)  Ims.ims_fresh        if_modified_since_never_panics, _rule,
                                                                                                  if_modified_since_plus_variant_refuted
       stream_body: the whole loop (pos += read, &buf[..buf_end])        Panics.stream_loop       stream_body_never_panics
+      url_crawl::LinkIter (data[pos+1..], quote[..ending], data[..=pos],
+        data[advance..]; file / upstream content)                        UrlCrawl.link_iter       link_iter_never_panics; REPAIRED (fa13a8b),
+                                                                                                 link_iter_v0_refuted
       is_part_of_origin / check_cors_request                            Cors (total functions)   stage of request_path
       http, time, moka, tokio, compressors, other extensions            not modelled             exploration run only *)
 From Coq Require Import ZArith.
-From KV Require Import Bytes RustInt RustStd Panics PanicsProofs Ims ImsProofs.
+From KV Require Import Bytes RustInt RustStd Panics PanicsProofs Ims ImsProofs UrlCrawl UrlCrawlProofs.
 From KV Require PathSan PathSanProofs Range RangeProofs RangeConn RangeConnProofs Http1Read Hosts HostsProofs
   Negotiate ListHeaderProofs Limiter LimiterProofs Nonce NonceProofs PresentLine PresentLineProofs CacheControl Cors.
 Open Scope N_scope.
@@ -164,6 +167,19 @@ Proof. exact PresentLineProofs.present_parse_total. Qed.
 Theorem nonce_rewriter_never_panics : forall nonce body : bytes,
   Nonce.nonce_rewrite nonce body <> Panic /\ forall e, Nonce.nonce_rewrite nonce body <> Err e.
 Proof. exact NonceProofs.nonce_rewrite_total. Qed.
+
+(** ** [url_crawl::LinkIter] (anchor url-crawl/src/lib.rs; file / upstream content): the repaired iterator never panics,
+    for every filter function, both settings of [interdomain_links] and every text. *)
+Theorem link_iter_never_panics : forall (filter : bytes -> nat -> bool) (interdomain : bool) (data : bytes),
+  link_iter false filter interdomain data <> Panic.
+Proof. exact link_iter_no_panic. Qed.
+
+(** The code as it was ([&self.data[advance..]]): a quote that is not closed before the end of the data panics, under
+    both filters of the crate; the repaired code yields the link. *)
+Theorem link_iter_v0_refuted :
+  link_iter true filter_resource false unclosed = Panic /\ link_iter true filter_absolute false unclosed = Panic /\
+  link_iter false filter_resource false unclosed = Ok [IPath (B "/abc") (B "<img src=" ++ [34]) 1].
+Proof. exact link_iter_v0_panics. Qed.
 
 (** ** [kvarn-cache-control] (a RESPONSE header of a handler / upstream server, not client input) *)
 
